@@ -81,6 +81,45 @@ def cases(draw, tier):
     return c
 
 
+# documented constructor signatures of the pinned tree (parameter order and defaults), written down here - NOT read from the library -
+# so that the all-positional spelling below keeps meaning "the documented order" whatever the library under test declares
+SIGS = {
+    "GELU": [("mult", 1.0), ("constraint", "to_output_scale"), ("approximate", "none")],
+    "SiLU": [("mult", 1.0), ("constraint", "to_output_scale"), ("inplace", False)],
+    "Softmax": [("dim", None), ("mult", 1.0), ("constraint", "to_output_scale")],
+    "Dropout": [("p", 0.5), ("inplace", False)],
+    "Linear": [("in_features", None), ("out_features", None), ("bias", False), ("device", None), ("dtype", None), ("constraint", "to_output_scale"),
+               ("weight_mup_type", "weight")],
+    "LinearReadout": [("in_features", None), ("out_features", None), ("bias", False), ("device", None), ("dtype", None), ("constraint", None),
+                      ("weight_mup_type", "output")],
+    "Conv1d": [("in_channels", None), ("out_channels", None), ("kernel_size", None), ("stride", 1), ("padding", 0), ("dilation", 1), ("groups", 1),
+               ("bias", False), ("padding_mode", "zeros"), ("device", None), ("dtype", None), ("constraint", "to_output_scale"), ("weight_mup_type", "weight")],
+    "LayerNorm": [("normalized_shape", None), ("eps", 1e-5), ("elementwise_affine", False), ("bias", True), ("device", None), ("dtype", None)],
+    "RMSNorm": [("normalized_shape", None), ("eps", 1e-5), ("elementwise_affine", False)],
+    "Embedding": [("num_embeddings", None), ("embedding_dim", None), ("padding_idx", None), ("max_norm", None), ("norm_type", 2.0),
+                  ("scale_grad_by_freq", False), ("sparse", False), ("_weight", None), ("_freeze", False), ("device", None), ("dtype", None)],
+    "CrossEntropyLoss": [("mult", 1.0), ("weight", None), ("size_average", None), ("ignore_index", -100), ("reduce", None), ("reduction", "mean"),
+                         ("label_smoothing", 0.0)],
+    "MLP": [("hidden_size", None), ("expansion_factor", 4)],
+    "MHSA": [("hidden_size", None), ("heads", None), ("is_causal", None), ("dropout_p", 0.0), ("mult", 1.0)],
+    "TransformerLayer": [("hidden_size", None), ("heads", None), ("mhsa_tau", None), ("mlp_tau", None), ("is_causal", None), ("dropout_p", 0.0)],
+    "TransformerDecoder": [("hidden_size", None), ("vocab_size", None), ("layers", None), ("heads", None), ("dropout_p", 0.0)],
+}
+
+
+def make(c, name, *args, **kw):
+    """construct uu.<name>: as written (leading positional + keywords), or - for a third of the cases - with every argument up to
+    the last one given passed positionally in the documented order"""
+    K = getattr(uu, name)
+    if c["seed"] % 3 != 1:
+        return K(*args, **kw)
+    sig = SIGS[name]
+    given = dict(zip([n for n, _ in sig], args))
+    given.update(kw)
+    last = max(i for i, (n, _) in enumerate(sig) if n in given)
+    return K(*[given.get(n, d) for n, d in sig[: last + 1]])
+
+
 def ckw(c):
     return {} if c.get("constraint", "default") == "default" else dict(constraint=c["constraint"])
 
@@ -129,25 +168,25 @@ def build(c):
     twin = None
     one = False
     if cls == "GELU":
-        m = uu.GELU(mult=c["mult"], constraint=c["constraint"], approximate=c["approximate"])
+        m = make(c, "GELU", mult=c["mult"], constraint=c["constraint"], approximate=c["approximate"])
         x = (R(c["lead"] + [c["n"]]),)
         fn = lambda m, x: U.gelu(x, mult=c["mult"], approximate=c["approximate"], constraint=c["constraint"])  # noqa: E731
         tw = nn.GELU(approximate=c["approximate"])
         twin = lambda m, x: tw(x * c["mult"]) / c["mult"]  # noqa: E731
     elif cls == "SiLU":
-        m = uu.SiLU(mult=c["mult"], constraint=c["constraint"])
+        m = make(c, "SiLU", mult=c["mult"], constraint=c["constraint"])
         x = (R(c["lead"] + [c["n"]]),)
         fn = lambda m, x: U.silu(x, mult=c["mult"], constraint=c["constraint"])  # noqa: E731
         tw = nn.SiLU()
         twin = lambda m, x: tw(x * c["mult"]) / c["mult"]  # noqa: E731
     elif cls == "Softmax":
-        m = uu.Softmax(dim=c["dim"], mult=c["mult"], constraint=c["constraint"])
+        m = make(c, "Softmax", dim=c["dim"], mult=c["mult"], constraint=c["constraint"])
         x = (R(c["lead"] + [c["n"]]),)
         fn = lambda m, x: U.softmax(x, dim=c["dim"], mult=c["mult"], constraint=c["constraint"])  # noqa: E731
         tw = nn.Softmax(dim=c["dim"])
         twin = lambda m, x: tw(x * c["mult"])  # noqa: E731
     elif cls == "Dropout":
-        m = uu.Dropout(p=c["p"])
+        m = make(c, "Dropout", p=c["p"])
         x = (R(c["lead"] + [c["n"]]),)
         fn = lambda m, x: U.dropout(x, c["p"], c["train"])  # noqa: E731
         tw = nn.Dropout(p=c["p"])
@@ -155,7 +194,7 @@ def build(c):
         twin = lambda m, x: tw(x)  # noqa: E731
     elif cls in ("Linear", "LinearReadout"):
         K = uu.Linear if cls == "Linear" else uu.LinearReadout
-        m = K(c["fi"], c["fo"], bias=c["bias"], dtype=D, **ckw(c))
+        m = make(c, cls, c["fi"], c["fo"], bias=c["bias"], dtype=D, **ckw(c))
         if c["bias"]:
             with torch.no_grad():
                 m.bias.copy_(R([c["fo"]]))
@@ -167,8 +206,8 @@ def build(c):
         twin = lambda m, x: (tw.load_state_dict(m.state_dict()), tw(x))[1]  # noqa: E731
         twin.module = tw
     elif cls == "Conv1d":
-        m = uu.Conv1d(c["cin"], c["cout"], c["k"], stride=c["stride"], padding=c["padding"], dilation=c["dilation"], groups=c["groups"],
-                      bias=c["bias"], padding_mode=c["padding_mode"], dtype=D, **ckw(c))
+        m = make(c, "Conv1d", c["cin"], c["cout"], c["k"], stride=c["stride"], padding=c["padding"], dilation=c["dilation"], groups=c["groups"],
+                 bias=c["bias"], padding_mode=c["padding_mode"], dtype=D, **ckw(c))
         if c["bias"]:
             with torch.no_grad():
                 m.bias.copy_(R([c["cout"]]))
@@ -186,7 +225,7 @@ def build(c):
         twin.module = tw
     elif cls == "LayerNorm":
         ns = c["ns"][0] if (c["int_shape"] and len(c["ns"]) == 1) else c["ns"]
-        m = uu.LayerNorm(ns, eps=c["eps"], elementwise_affine=c["affine"], bias=c["bias"], dtype=D)
+        m = make(c, "LayerNorm", ns, eps=c["eps"], elementwise_affine=c["affine"], bias=c["bias"], dtype=D)
         if c["affine"]:
             with torch.no_grad():
                 m.weight.copy_(R(c["ns"]))
@@ -200,7 +239,7 @@ def build(c):
         one = True
     elif cls == "RMSNorm":
         ns = c["ns"][0] if (c["int_shape"] and len(c["ns"]) == 1) else tuple(c["ns"])
-        m = uu.RMSNorm(ns, eps=c["eps"], elementwise_affine=c["affine"]).to(D)
+        m = make(c, "RMSNorm", ns, eps=c["eps"], elementwise_affine=c["affine"]).to(D)
         if c["affine"]:
             with torch.no_grad():
                 m.weight.copy_(R(c["ns"]))
@@ -211,7 +250,7 @@ def build(c):
         twin.module = tw
         one = True
     elif cls == "Embedding":
-        m = uu.Embedding(c["V"], c["dim"], padding_idx=c["padding_idx"], max_norm=c["max_norm"], norm_type=c["norm_type"], dtype=D)
+        m = make(c, "Embedding", c["V"], c["dim"], padding_idx=c["padding_idx"], max_norm=c["max_norm"], norm_type=c["norm_type"], dtype=D)
         idx = torch.randint(0, c["V"], c["lead"] + [c["n"]], generator=g)
         x = (idx,)
         fn = lambda m, i: U.embedding(i, m.weight, c["padding_idx"] if c["padding_idx"] is None or c["padding_idx"] >= 0 else c["V"] + c["padding_idx"],  # noqa: E731
@@ -221,7 +260,7 @@ def build(c):
         twin.module = tw
         one = True
     elif cls == "CrossEntropyLoss":
-        m = uu.CrossEntropyLoss(mult=c["mult"], ignore_index=c["ignore_index"], reduction=c["reduction"])
+        m = make(c, "CrossEntropyLoss", mult=c["mult"], ignore_index=c["ignore_index"], reduction=c["reduction"])
         V, B = c["V"], c["B"]
         logits = R([V] if B is None else [B, V])
         t = torch.randint(0, V, () if B is None else (B,), generator=g)
@@ -234,19 +273,19 @@ def build(c):
         twin.sum_reduced = nn.CrossEntropyLoss(ignore_index=c["ignore_index"], reduction="sum")
         one = True
     elif cls == "MLP":
-        m = uu.MLP(c["hidden"], expansion_factor=c["expansion"]).to(D)
+        m = make(c, "MLP", c["hidden"], expansion_factor=c["expansion"]).to(D)
         x = (R(c["lead"] + [c["hidden"]]),)
         fn = f_mlp
     elif cls == "MHSA":
-        m = uu.MHSA(c["hidden"], c["heads"], is_causal=c["causal"], dropout_p=c["dropout_p"], mult=c["mult"]).to(D)
+        m = make(c, "MHSA", c["hidden"], c["heads"], is_causal=c["causal"], dropout_p=c["dropout_p"], mult=c["mult"]).to(D)
         x = (R([c["b"], c["s"], c["hidden"]]),)
         fn = lambda m, x: f_mhsa(m, x, c["heads"], c["causal"], c["dropout_p"], c["mult"])  # noqa: E731
     elif cls == "TransformerLayer":
-        m = uu.TransformerLayer(c["hidden"], c["heads"], mhsa_tau=c["mhsa_tau"], mlp_tau=c["mlp_tau"], is_causal=c["causal"], dropout_p=c["dropout_p"]).to(D)
+        m = make(c, "TransformerLayer", c["hidden"], c["heads"], mhsa_tau=c["mhsa_tau"], mlp_tau=c["mlp_tau"], is_causal=c["causal"], dropout_p=c["dropout_p"]).to(D)
         x = (R([c["b"], c["s"], c["hidden"]]),)
         fn = lambda m, x: f_layer(m, x, c["heads"], c["causal"], c["dropout_p"], c["train"], c["mhsa_tau"], c["mlp_tau"])  # noqa: E731
     elif cls == "TransformerDecoder":
-        m = uu.TransformerDecoder(c["hidden"], c["vocab"], c["layers"], c["heads"], dropout_p=c["dropout_p"]).to(D)
+        m = make(c, "TransformerDecoder", c["hidden"], c["vocab"], c["layers"], c["heads"], dropout_p=c["dropout_p"]).to(D)
         x = (torch.randint(0, c["vocab"], [c["b"], c["s"]], generator=g),)
 
         def fn(m, ids):
